@@ -32,7 +32,7 @@ Definition released (c : core) (w : wid) (id : tid) : list N :=
 
 (** * One task: [remove_sn_task] adds back exactly the request, [remove_prefill_task] nothing *)
 Lemma remove_sn_task_full wk id amt wk' : remove_sn_task wk id amt = Ok wk' ->
-  exists a p f, w_assign wk = Sn a p f /\ wk' = with_assign wk (Sn (tid_remove id a) p (res_add f amt)).
+  exists a p f, w_assign wk = Sn a p f /\ wk' = with_assign wk (Sn (tid_remove id a) p (res_add_cap f amt (w_res wk))).
 Proof.
   unfold remove_sn_task. destruct (w_assign wk) as [a p f|]; [|discriminate].
   destruct (tid_mem id a); [|discriminate]. intros H; inversion H; subst. exists a, p, f. auto.
@@ -45,7 +45,7 @@ Proof.
   destruct (tid_mem id p); [|discriminate]. intros H; inversion H; subst. exists a, p, f. auto.
 Qed.
 
-Lemma res_add_nil f : res_add f [] = f.
+Lemma res_add_nil f cap : res_add_cap f [] cap = f.
 Proof. destruct f; reflexivity. Qed.
 
 Lemma find_del_redirect_other rs id x : x <> id -> find_redirect (del_redirect rs id) x = find_redirect rs x.
@@ -77,8 +77,8 @@ Lemma released_ext c c' w x :
   released c' w x = released c w x.
 Proof. intros Et Eq Er. unfold released, request_of. rewrite Et, Eq, Er. reflexivity. Qed.
 
-Lemma fold_res_add_ext l : forall (g h : tid -> list N) acc, (forall x, In x l -> g x = h x) ->
-  fold_left (fun a x => res_add a (g x)) l acc = fold_left (fun a x => res_add a (h x)) l acc.
+Lemma fold_res_add_ext cap l : forall (g h : tid -> list N) acc, (forall x, In x l -> g x = h x) ->
+  fold_left (fun a x => res_add_cap a (g x) cap) l acc = fold_left (fun a x => res_add_cap a (h x) cap) l acc.
 Proof.
   induction l as [|y r IH]; intros g h acc E; [reflexivity|]. cbn [fold_left].
   rewrite (E y (or_introl eq_refl)). apply IH. intros x Hx. apply E. right. exact Hx.
@@ -90,7 +90,7 @@ Lemma cancel_release_free w ids : forall s tu ru s' tu' ru' wk a p f,
   (forall id t ws, find_task (c_tasks (core_of s)) id = Some t -> t_state t = RunningMN ws -> n_mem w ws = false) ->
   find_worker (c_workers (core_of s)) w = Some wk -> w_assign wk = Sn a p f ->
   exists wk' a' p', find_worker (c_workers (core_of s')) w = Some wk' /\
-    w_assign wk' = Sn a' p' (fold_left (fun acc id => res_add acc (released (core_of s) w id)) ids f) /\
+    w_assign wk' = Sn a' p' (fold_left (fun acc id => res_add_cap acc (released (core_of s) w id) (w_res wk)) ids f) /\
     w_res wk' = w_res wk.
 Proof.
   induction ids as [|id r IH]; intros s tu ru s' tu' ru' wk a p f H Hnd Hmn Hw Ha.
@@ -100,17 +100,17 @@ Proof.
        c_tasks (core_of s1) = c_tasks (core_of s) -> c_rqs (core_of s1) = c_rqs (core_of s) ->
        (forall x, x <> id -> find_redirect (c_redirects (core_of s1)) x = find_redirect (c_redirects (core_of s)) x) ->
        find_worker (c_workers (core_of s1)) w = Some wk1 ->
-       w_assign wk1 = Sn a1 p1 (res_add f (released (core_of s) w id)) -> w_res wk1 = w_res wk ->
+       w_assign wk1 = Sn a1 p1 (res_add_cap f (released (core_of s) w id) (w_res wk)) -> w_res wk1 = w_res wk ->
        cancel_release s1 r tu1 ru1 = Ok (s', tu', ru') ->
        exists wk' a' p', find_worker (c_workers (core_of s')) w = Some wk' /\
-         w_assign wk' = Sn a' p' (fold_left (fun acc id0 => res_add acc (released (core_of s) w id0)) r (res_add f (released (core_of s) w id))) /\
+         w_assign wk' = Sn a' p' (fold_left (fun acc id0 => res_add_cap acc (released (core_of s) w id0) (w_res wk)) r (res_add_cap f (released (core_of s) w id) (w_res wk))) /\
          w_res wk' = w_res wk).
     { intros s1 tu1 ru1 wk1 a1 p1 Et Eq Er Hw1 Ha1 Hr1 H1.
       assert (Hmn1 : forall i t0 ws, find_task (c_tasks (core_of s1)) i = Some t0 -> t_state t0 = RunningMN ws -> n_mem w ws = false).
       { intros i t0 ws Hf. apply (Hmn i t0 ws). rewrite <- Et. exact Hf. }
       destruct (IH _ _ _ _ _ _ _ _ _ _ H1 Hnr Hmn1 Hw1 Ha1) as (wk' & a' & p' & A & B & C).
       exists wk', a', p'. split; [exact A|]. split; [|congruence].
-      rewrite B. f_equal. apply fold_res_add_ext. intros x Hx. apply released_ext; [exact Et | exact Eq|].
+      rewrite B, Hr1. f_equal. apply fold_res_add_ext. intros x Hx. apply released_ext; [exact Et | exact Eq|].
       apply Er. intros ->. contradiction. }
     destruct (find_task (c_tasks (core_of s)) id) as [t|] eqn:Ef.
     2:{ assert (Hrel : released (core_of s) w id = []) by (unfold released; rewrite Ef; reflexivity).
@@ -127,11 +127,11 @@ Proof.
               c_workers (core_of s1) = set_worker (c_workers (core_of s)) wk0' ->
               cancel_release s1 r tu1 ru1 = Ok (s', tu', ru') ->
               exists wk' a' p', find_worker (c_workers (core_of s')) w = Some wk' /\
-                w_assign wk' = Sn a' p' (fold_left (fun acc id0 => res_add acc (released (core_of s) w id0)) r (res_add f (released (core_of s) w id))) /\
+                w_assign wk' = Sn a' p' (fold_left (fun acc id0 => res_add_cap acc (released (core_of s) w id0) (w_res wk)) r (res_add_cap f (released (core_of s) w id) (w_res wk))) /\
                 w_res wk' = w_res wk).
     { intros w0 wk0 wk0' s1 tu1 ru1 Hrel Hg Hrm Et Eq Er Ew1 H1.
       destruct (remove_sn_task_full _ _ _ _ Hrm) as (a0 & p0 & f0 & Ea0 & ->).
-      pose proof (set_worker_view _ _ _ _ _ (Sn (tid_remove id a0) p0 (res_add f0 (rq_res rq))) Hw Hg) as Hv.
+      pose proof (set_worker_view _ _ _ _ _ (Sn (tid_remove id a0) p0 (res_add_cap f0 (rq_res rq) (w_res wk0))) Hw Hg) as Hv.
       rewrite <- Ew1 in Hv.
       destruct (N.eqb w0 w) eqn:Ew.
       - apply N.eqb_eq in Ew. subst w0. rewrite Hw in Hg. inversion Hg; subst wk0. rewrite Ha in Ea0. inversion Ea0; subst a0 p0 f0.
@@ -203,7 +203,7 @@ Lemma on_cancel_tasks_free w s ids s' wk a p f :
   (forall id t ws, find_task (c_tasks (core_of s)) id = Some t -> t_state t = RunningMN ws -> n_mem w ws = false) ->
   find_worker (c_workers (core_of s)) w = Some wk -> w_assign wk = Sn a p f ->
   exists wk' a' p', find_worker (c_workers (core_of s')) w = Some wk' /\
-    w_assign wk' = Sn a' p' (fold_left (fun acc id => res_add acc (released (core_of s) w id)) ids f) /\
+    w_assign wk' = Sn a' p' (fold_left (fun acc id => res_add_cap acc (released (core_of s) w id) (w_res wk)) ids f) /\
     w_res wk' = w_res wk.
 Proof.
   intros H Hnd Hmn Hw Ha. unfold on_cancel_tasks in H.
@@ -229,7 +229,7 @@ Theorem cancel_free_counters ops reserve maxfill s outs j jb s' outs' w wk a p f
   find_job (h_jobs (s_hq s)) j = Some jb ->
   find_worker (c_workers (s_core s)) w = Some wk -> w_assign wk = Sn a p f ->
   exists wk' a' p', find_worker (c_workers (s_core s')) w = Some wk' /\
-    w_assign wk' = Sn a' p' (fold_left (fun acc id => res_add acc (released (s_core s) w id)) (non_finished_task_ids jb) f) /\
+    w_assign wk' = Sn a' p' (fold_left (fun acc id => res_add_cap acc (released (s_core s) w id) (w_res wk)) (non_finished_task_ids jb) f) /\
     w_res wk' = w_res wk.
 Proof.
   intros Hwf Hf Hr Hst Hj Hw Ha.
@@ -262,8 +262,8 @@ Proof.
   intros (_ & _ & H & _) Hw Ha. rewrite released_wantA, <- (wi_A _ _ _ H). unfold inA. rewrite Hw, Ha. reflexivity.
 Qed.
 
-Lemma fold_res_add_filter (g : tid -> list N) (b : tid -> bool) l : forall acc,
-  fold_left (fun a x => res_add a (if b x then g x else [])) l acc = fold_left (fun a x => res_add a (g x)) (filter b l) acc.
+Lemma fold_res_add_filter cap (g : tid -> list N) (b : tid -> bool) l : forall acc,
+  fold_left (fun a x => res_add_cap a (if b x then g x else []) cap) l acc = fold_left (fun a x => res_add_cap a (g x) cap) (filter b l) acc.
 Proof.
   induction l as [|y r IH]; intros acc; [reflexivity|]. cbn [fold_left filter].
   destruct (b y); [cbn [fold_left] | rewrite res_add_nil]; apply IH.
@@ -310,7 +310,7 @@ Theorem cancel_free_counters_sum ops reserve maxfill s outs j jb s' outs' w wk a
   find_job (h_jobs (s_hq s)) j = Some jb ->
   find_worker (c_workers (s_core s)) w = Some wk -> w_assign wk = Sn a p f ->
   exists wk' a' p', find_worker (c_workers (s_core s')) w = Some wk' /\
-    w_assign wk' = Sn a' p' (fold_left (fun acc id => res_add acc (request_of (s_core s) id)) (filter (fun id => N.eqb (fst id) j) a) f) /\
+    w_assign wk' = Sn a' p' (fold_left (fun acc id => res_add_cap acc (request_of (s_core s) id) (w_res wk)) (filter (fun id => N.eqb (fst id) j) a) f) /\
     w_res wk' = w_res wk /\
     (forall id, In id a' -> fst id <> j) /\ (forall id, In id p' -> fst id <> j).
 Proof.
@@ -319,9 +319,9 @@ Proof.
   destruct (cancel_free_counters _ _ _ _ _ _ _ _ _ _ _ _ _ _ Hwf Hf Hr Hst Hj Hw Ha) as (wk' & a' & p' & A & B & C).
   exists wk', a', p'. split; [exact A|]. split; [|split; [exact C|]].
   - rewrite B. f_equal.
-    rewrite (fold_res_add_ext _ _ (fun x => if tid_mem x a then request_of (s_core s) x else []))
+    rewrite (fold_res_add_ext _ _ _ (fun x => if tid_mem x a then request_of (s_core s) x else []))
       by (intros x _; apply (released_member _ _ _ _ _ _ _ (inv_w _ HI) Hw Ha)).
-    rewrite (fold_res_add_filter (request_of (s_core s)) (fun x => tid_mem x a)). f_equal.
+    rewrite (fold_res_add_filter _ (request_of (s_core s)) (fun x => tid_mem x a)). f_equal.
     pose proof (jok_sorted _ (inv_hok _ HI _ (find_job_in _ _ _ Hj))) as Hjs.
     assert (Hsa : tsorted a).
     { destruct (inv_w _ HI) as (_ & _ & H & _). exact (proj1 (wi_sets _ _ _ H w wk a p f Hw Ha)). }
@@ -349,7 +349,7 @@ Example cancel_free_example :
     run (init_sys 0 2) rel_ops = Ok (s, outs) /\ step s (OpCancel 1) = Ok (s', outs') /\
     find_job (h_jobs (s_hq s)) 1 = Some jb /\ find_worker (c_workers (s_core s)) 1 = Some wk /\
     w_assign wk = Sn [(1, 0); (1, 1)] [(1, 2)] [10000; 0; 0] /\
-    fold_left (fun acc id => res_add acc (request_of (s_core s) id)) (filter (fun id => N.eqb (fst id) 1) [(1, 0); (1, 1)]) [10000; 0; 0] = [30000; 0; 0].
+    fold_left (fun acc id => res_add_cap acc (request_of (s_core s) id) (w_res wk)) (filter (fun id => N.eqb (fst id) 1) [(1, 0); (1, 1)]) [10000; 0; 0] = [30000; 0; 0].
 Proof.
   do 6 eexists. split; [vm_compute; reflexivity|]. split; [vm_compute; reflexivity|].
   split; [vm_compute; reflexivity|]. split; [vm_compute; reflexivity|]. split; vm_compute; reflexivity.
